@@ -396,12 +396,20 @@ class Model:
         files does not survive (documented), everything else does."""
         self.generation += 1
         fresh = 0
+        udf_groups = {}
         for ns in ('iso', 'joliet', 'udf'):
-            for p, n in self.ns[ns].items():
+            for p, n in sorted(self.ns[ns].items()):
                 if n.kind == 'file' and n.cid is not None and n.cid != 'catalog' and self.contents[n.cid].length == 0:
+                    if ns == 'udf' and n.cid in udf_groups:
+                        # UDF names of one (empty) file share a File Entry on disc: real link
+                        # information that a reader recovers
+                        n.cid = udf_groups[n.cid]
+                        continue
                     fresh += 1
                     newcid = 'e%d.%d' % (self.generation, fresh)
                     self.contents[newcid] = Content(newcid, 0, b'')
+                    if ns == 'udf':
+                        udf_groups[n.cid] = newcid
                     n.cid = newcid
         for cid in [c for c in self.contents if c != 'catalog' and not self.names_of(c) and not self.boot_refs(c)]:
             del self.contents[cid]
